@@ -70,6 +70,24 @@ class ZipfGen:
             alpha = round(r.uniform(0, 3) / 0.05) * 0.05
         return dict(id=cid, cls=cls, typ=typ, mn=mn, mx=mx, n=n, alpha=alpha)
 
+    def grid_cases(self, prefix):
+        """deterministic part of every run: both classes at every bin count around the structural boundaries (1 bin,
+        the 100-bin exact/approximate switch, the first trapezoid blocks, the documented 1000-bin threshold) for a
+        small grid of skews, integer types and offsets rotating"""
+        out = []
+        types = list(TYPES)
+        k = 0
+        for cls in ('exact', 'approx'):
+            for n in (1, 2, 3, 99, 100, 101, 102, 199, 200, 201, 202, 300, 999, 1000, 1001, 1100, 1200):
+                for alpha in (0.0, 0.5, 1.0, 2.0):
+                    typ = types[k % len(types)]
+                    lo, hi = TYPES[typ]
+                    mn = [0, lo, hi - (n - 1), 1 if lo == 0 else -n // 2][(k // len(types)) % 4]
+                    mn = max(lo, min(mn, hi - (n - 1)))
+                    out.append(dict(id=f'{prefix}g{k}', cls=cls, typ=typ, mn=mn, mx=mn + n - 1, n=n, alpha=alpha))
+                    k += 1
+        return out
+
     def header(self, c):
         return f'ZCASE {c["id"]} {c["cls"]} {c["typ"]} {c["mn"]} {c["mx"]} {dbits(c["alpha"]):016x}'
 
